@@ -162,7 +162,7 @@ def _run_task(args):
         tasks = {t.id: t for t in mod.tasks(tier)}
         t = tasks[tid]
         kw = dict(t.cfg)
-        kw.setdefault('prove_timeout_ms', 40000 if tier == 'quick' else 120000)      # generous: verdicts must not flip on a loaded machine
+        kw.setdefault('prove_timeout_ms', 120000 if tier == 'quick' else 240000)      # generous: verdicts must not flip on a loaded machine
         kw['task_id'] = tid
         kw['seed'] = seed
         cfg = Cfg(**kw)
